@@ -807,7 +807,8 @@ class Parser:
         expr = self._parse_binary_expression(0, exclude_in)
 
         if self._match(TokenType.QUESTION):
-            consequent = self._parse_assignment_expression(exclude_in)
+            # (`in` is always allowed between ? and :, also in a for header)
+            consequent = self._parse_assignment_expression()
             self._expect(TokenType.COLON, "Expected ':' in conditional expression")
             alternate = self._parse_assignment_expression(exclude_in)
             return ConditionalExpression(expr, consequent, alternate)
@@ -830,7 +831,8 @@ class Parser:
 
         # Then conditional
         if self._match(TokenType.QUESTION):
-            consequent = self._parse_assignment_expression(exclude_in)
+            # (`in` is always allowed between ? and :, also in a for header)
+            consequent = self._parse_assignment_expression()
             self._expect(TokenType.COLON, "Expected ':' in conditional expression")
             alternate = self._parse_assignment_expression(exclude_in)
             left = ConditionalExpression(left, consequent, alternate)
